@@ -31,14 +31,8 @@ type vMNode struct {
 	up  bool
 }
 
-func vFreeAddr() string {
-	l, err := net.Listen("tcp", "127.0.0.1:0")
-	if err != nil {
-		panic(err)
-	}
-	defer l.Close()
-	return l.Addr().String()
-}
+// vFreeAddr: a loopback address no other listener of this process has been given (verifkit.FreeAddr).
+func vFreeAddr() string { return verifkit.FreeAddr() }
 
 func (m *vMNode) start() error {
 	var ln net.Listener
